@@ -16,6 +16,23 @@ TP=$B/third_party
 if [ ! -d $TP/golang-lru ]; then
   mkdir -p $TP && cp -r $(go env GOMODCACHE)/github.com/hashicorp/golang-lru/v2@v2.0.7 $TP/golang-lru && chmod -R u+w $TP/golang-lru || { echo "build: copy golang-lru failed" >&2; exit 2; }
 fi
+if [ ! -d $TP/common ]; then
+  cp -r $(go env GOMODCACHE)/github.com/lindb/common@v0.0.6 $TP/common && chmod -R u+w $TP/common || { echo "build: copy lindb/common failed" >&2; exit 2; }
+  # fasttime caches the wall clock in a real 5 ms ticker goroutine started from init: under simulation
+  # it must read the (fake) clock of the bubble
+  rm -f $TP/common/pkg/fasttime/*.go; cat > $TP/common/pkg/fasttime/fasttime.go <<'GOEOF'
+// Simulation copy of lindb/common fasttime: reads the clock directly (no ticker goroutine).
+package fasttime
+
+import "time"
+
+func UnixNano() int64         { return time.Now().UnixNano() }
+func UnixMicroseconds() int64 { return time.Now().UnixNano() / 1e3 }
+func UnixMilliseconds() int64 { return time.Now().UnixNano() / 1e6 }
+func UnixTimestamp() int64    { return time.Now().UnixNano() / 1e9 }
+GOEOF
+  rm -f $TP/common/pkg/fasttime/*_test.go
+fi
 YIELD=github.com/lindb/lindb/kv,github.com/lindb/lindb/pkg/queue,github.com/lindb/lindb/replica,github.com/lindb/lindb/index,github.com/lindb/lindb/tsdb,github.com/lindb/lindb/query,github.com/lindb/lindb/coordinator/master,github.com/lindb/lindb/coordinator/discovery,github.com/lindb/lindb/internal/concurrent,github.com/lindb/lindb/app/storage/rpc
 CONSTS=github.com/lindb/lindb/pkg/queue.dataPageSize=512,github.com/lindb/lindb/pkg/queue.indexItemsPerPage=8,github.com/lindb/lindb/pkg/bufioutil.defaultWriteBufferSize=4096
 $B/bin/rewrite -dir /repo -out $B/overlay -const $CONSTS -yield $YIELD \
